@@ -35,7 +35,9 @@ from .sym import (
     TEnum,
     TInt,
     TList,
+    TListVal,
     TMap,
+    TPath,
     TOpaque,
     TOpt,
     TRec,
@@ -60,6 +62,8 @@ class T:
     const = TConst
     rec = TRec
     opaque = TOpaque
+    listval = TListVal
+    path = TPath
 
 
 def _named(cl) -> dict:
@@ -102,11 +106,11 @@ def contract(target: str, *, props, args=None, returns=None, requires=None, ensu
     return c
 
 
-def lemma(name: str, *, props, vars: dict, assumes=None, shows=None, note="", uses=(), timeout_ms=None) -> dict:
+def lemma(name: str, *, props, vars: dict, assumes=None, shows=None, note="", uses=(), timeout_ms=None, bounded=None, list_bound=None) -> dict:
     """A property-level lemma over contracts: forall vars. /\\assumes => /\\shows."""
     caller = sys._getframe(1).f_globals
     l = dict(name=name, props=list(props), vars=dict(vars), assumes=_named(assumes), shows=_named(shows),
-             note=note, uses=tuple(uses), module=caller.get("__name__"), gl=caller, timeout_ms=timeout_ms)
+             note=note, uses=tuple(uses), module=caller.get("__name__"), gl=caller, timeout_ms=timeout_ms, bounded=bounded, list_bound=list_bound)
     LEMMAS[name] = l
     return l
 
